@@ -44,6 +44,19 @@ CLAIMS = {
              "thresholds; keys from a finite universe; one known finding (Len on partially loaded nodes) matched through hook H4",
         engine="ast",
     ),
+    "C16": dict(
+        category="model_checking",
+        technique="TLA+ model of the raw->parsed conversion against concurrent readers (AstConc: atomic t, plain p/l, RWMutex) checked by TLC "
+                  "(no torn read, sequential results, no unsynchronised conflicting access, termination); every model path replayed as a "
+                  "gated schedule on real nodes under the Go race detector",
+        text="TLC explores all interleavings of the code's atomic steps for 2 and 3 goroutines; each complete path is a schedule that the "
+             "harness enforces on real goroutines through the library's instrumentation points (-tags verif, -race); results must equal "
+             "the sequential run and the race detector must stay silent; plus ungated stress.",
+        design_ref="DESIGN.md section 4 C16, section 11",
+        note="one shared node per schedule; steps without an instrumentation point run with the next gated step; the race detector is "
+             "trusted for data races in executed schedules",
+        engine="astconc",
+    ),
 }
 
 NOT_YET = "not yet claimed: check under construction (build phase), see DESIGN.md section 8"
